@@ -451,6 +451,8 @@ CHECKS["C18"] = {
         {"pkg": "./core/aggsigdb", "harness": "VerifC18AggSigDB", "params": {}},
         {"pkg": "./core/aggsigdb", "harness": "VerifC18AggSigDBV1", "params": {}},
         {"pkg": "./core/sigagg", "harness": "VerifC18SigAgg", "params": {}},
+        {"pkg": "./core/scheduler", "harness": "VerifC18Sched", "params": {"feature_fetch_att_on_block": 1, "opaque_pubkeys": 1}, "unwind": 20,
+         "noops": ["github.com/obolnetwork/charon/core/scheduler.logResolvedDuties"]},
     ],
     "thorough": [
         {"pkg": "./core/dutydb", "harness": "VerifC18DutyDB", "params": {}, "cross": True},
@@ -463,6 +465,8 @@ CHECKS["C18"] = {
         {"pkg": "./core/aggsigdb", "harness": "VerifC18AggSigDB", "params": {}, "cross": True},
         {"pkg": "./core/aggsigdb", "harness": "VerifC18AggSigDBV1", "params": {}, "cross": True},
         {"pkg": "./core/sigagg", "harness": "VerifC18SigAgg", "params": {}, "cross": True},
+        {"pkg": "./core/scheduler", "harness": "VerifC18Sched", "params": {"feature_fetch_att_on_block": 1, "opaque_pubkeys": 1}, "unwind": 20, "cross": True,
+         "noops": ["github.com/obolnetwork/charon/core/scheduler.logResolvedDuties"]},
     ],
     "bounds": {
         "quick": "Clone implementations with their own bodies executed (voluntary exit, randao, attestation, sync message, attestation data, sync contribution, a partial-signature set): equal content, no shared pointer/slice, SetSignature returns a private copy; dutydb readers that were already waiting when the data is stored (blocked-then-woken path) and a later reader; dutydb also for sync contributions, proposals (phase0 block) and aggregated attestations (first store and a second store of the same key; callers mutate their inputs afterwards; two reads; a reader mutates its result); object-identity (may-alias) queries over the engine's heap after one concrete operation sequence per component with symbolic contents: dutydb (store attestation, mutate input, read x3 incl. committee-0 alias, mutate result, read), parsigdb (two internal stores reaching threshold 2 of 3, two internal and two threshold subscribers; inputs / stored entries / every subscriber's objects pairwise), aggsigdb MemDBV2 (store, mutate input, read x2, mutate result, read), sigagg (two subscribers)",
